@@ -24,6 +24,8 @@ def configs():
         zs = min(0x40, top - 0x3F)
         zones = [{'name': 'zz', 'start': zs, 'end': zs + 0x1F}]
         data = [{'name': 'blk', 'address': 0x30, 'value': 0x77, 'size': 2}] if bits in (12, 24) else []
+        if bits == 24:
+            data.append({'name': 'blk2', 'address': 0x38, 'value': 0x66, 'size': 3})       # a second block, different in value and size
         far = {8: 0xB0, 10: top - 0x0F, 12: top - 0x0F, 16: top - 0x0F, 24: 0x10010, 32: 0x10010}[bits]     # >16 bits: just beyond 64K (extended records)
         out.append((bits, R.Params(address_size=bits, endian='little', zones=zones, data=data), far))
     return out
@@ -44,19 +46,20 @@ def sigma(i, far):
         ('include', f'inc{i}.asm'),
         ('label', f'lb{i}'),
         ('data', 2, [0, 0xFFFF]),
+        ('joined', ('ldi', 'a', m & 0x7F), ('nop',), ('ldi', 'b', (m + 1) & 0x7F)),        # three statements on one source line
     ]
 
 
-NSYM = 12
+NSYM = 13
 
 
 def meta(tier):
     q = tier == 'quick'
     return {
-        'rule': 'programs: every history over the 12-symbol alphabet (1-byte line, 8-byte line longer than a listing row, near and far '
+        'rule': 'programs: every history over the 13-symbol alphabet (three statements on one line, 1-byte line, 8-byte line longer than a listing row, near and far '
                 'origins, zone switch, alignment gap, #mute/#unmute, zero-length fill, included file, label, a line emitting 00 and ff '
-                'bytes) up to the depth bound that the reference accepts, under address widths 8/10/12/16/24/32 (two of them with a '
-                'predefined data block); per program 6 executions: two images (fill 00 / ff) giving the exact address->byte map, and '
+                'bytes) up to the depth bound that the reference accepts, under address widths 8/10/12/16/24/32 (two of them with '
+                'predefined data blocks, one with two different blocks); per program 6 executions: two images (fill 00 / ff) giving the exact address->byte map, and '
                 'the four formats, each decoded independently, plus two images of the window that starts inside the first multi-byte statement (-s), which must hold the same bytes from there on; the listing rows are also compared with the reference lines '
                 '(each statement once, its address, its bytes, nothing for muted lines); non-trivial = program with a gap, a muted '
                 'byte or a line longer than 6 bytes; states = distinct memory maps',
